@@ -11,7 +11,7 @@
          | L [A 6] RuntimeError | L [A 7] StopIteration (iterator: any OSError)
    The history stops after a RuntimeError. *)
 From EN Require Import Lib.Bytes Lib.Sx Frame.Framer Frame.ReadUntil Frame.BufReadUntil Stream.Consumer Stream.Endpoint
-  Run.Stream.
+  Conc.RecvLock Run.Stream.
 
 Inductive hcall := HRecv (t : option nat) | HIter (t : option nat) (n : nat).
 
@@ -77,7 +77,7 @@ Section RunM.
     end.
 End RunM.
 
-Definition run (i : sx) : sx :=
+Definition run1 (i : sx) : sx :=
   match i with
   | L (A kind :: cfg :: d :: os :: cs :: A md :: A bufsize :: A api :: _) =>
       do dec <- mk_dec d;
@@ -103,4 +103,60 @@ Definition run (i : sx) : sx :=
       | _, _ => bad_input
       end
   | _ => bad_input
+  end.
+
+(* ---- two threads on one blocking TCP client (Conc/RecvLock.v)
+   input  = L [A 200; case; L schedule; A na; A nb]     case = a single-client input as above (its call list is ignored:
+            every call is recv_packet(timeout=None)); schedule = thread ids (0/1) the scheduler lets run; na, nb = calls per thread
+   output = L [L [per step: L [status_a; status_b]]; L [returned calls in order: L [A tid; res]]; A bytes_taken; A items_left]
+     status = L [A 0; A n] not in a call, n calls left | L [A 1; A n] waiting for the receive lock | L [A 2; A n] parked in the transport *)
+Definition pc_sx (p : tpc) : sx :=
+  match p with
+  | TIdle n => L [A 0; of_nat n]
+  | TBlocked n => L [A 1; of_nat n]
+  | TParked n => L [A 2; of_nat n]
+  end%Z.
+
+Section RunT.
+  Context {C : Type}.
+  Variable M : machine (option bytes) C.
+
+  Definition run_threads (c0 : C) (o : oracle) (sch : list bool) (na nb : nat) : sx :=
+    let '(obs, s) := trun_obs M (tinit c0 o na nb) sch in
+    L [L (map (fun ab => L [pc_sx (fst ab); pc_sx (snd ab)]) obs);
+       L (map (fun ir => L [of_bool (fst ir); res_sx (client_convert (snd ir))]) (rev (t_log s)));
+       of_nat (oracle_bytes o - oracle_bytes (t_o s));
+       of_nat (length (t_o s))].
+End RunT.
+
+Definition run_t (i : sx) (sch : list bool) (na nb : nat) : sx :=
+  match i with
+  | L (A kind :: cfg :: d :: os :: _ :: _ :: A bufsize :: _) =>
+      do dec <- mk_dec d;
+      do o <- as_list_of as_item os;
+      let bs := Z.to_nat bufsize in
+      match kind, cfg with
+      | 0%Z, L [B sep; A limit; A ke] =>
+          let F := ru_framer sep (Z.to_nat limit) (Z.eqb ke 1) dec in
+          run_threads (copy_machine F bs) (cinit F) o sch na nb
+      | 1%Z, L (B sep :: A limit :: A ke :: _) =>
+          let F := bru_framer sep (Z.to_nat limit) (Z.eqb ke 1) dec in
+          run_threads (buf_machine F bs) (bcinit F) o sch na nb
+      | 2%Z, L [A size] =>
+          let F := rx_framer (Z.to_nat size) dec in
+          run_threads (copy_machine F bs) (cinit F) o sch na nb
+      | 3%Z, L (A size :: _) =>
+          let F := bfx_framer (Z.to_nat size) dec in
+          run_threads (buf_machine F bs) (bcinit F) o sch na nb
+      | _, _ => bad_input
+      end
+  | _ => bad_input
+  end.
+
+Definition run (i : sx) : sx :=
+  match i with
+  | L [A 200%Z; case; sch; A na; A nb] =>
+      do s <- as_list_of as_bool sch;
+      run_t case s (Z.to_nat na) (Z.to_nat nb)
+  | _ => run1 i
   end.
